@@ -343,6 +343,31 @@ func (x *qtrans) assign(s *ast.AssignStmt, en qenv, fc *qfctx, next qkont) strin
 	return done(cur)
 }
 
+// droppedFieldReset: `v.f = nil` where f is a field of a dropped type of an object variable v
+func (x *qtrans) droppedFieldReset(s *ast.AssignStmt, en qenv) bool {
+	if s.Tok != token.ASSIGN || len(s.Lhs) != 1 || len(s.Rhs) != 1 || !isIdent(s.Rhs[0], "nil") {
+		return false
+	}
+	sel, ok := s.Lhs[0].(*ast.SelectorExpr)
+	if !ok {
+		return false
+	}
+	id, ok := sel.X.(*ast.Ident)
+	if !ok {
+		return false
+	}
+	v := en.lookup(id.Name)
+	if v == nil {
+		return false
+	}
+	bi := x.ti(v.typ)
+	if bi.Kind != "obj" {
+		return false
+	}
+	ft, ok := x.u.fieldType(bi.Struct, sel.Sel.Name)
+	return ok && x.u.typeInfo(ft, nil).Kind == "drop"
+}
+
 // ---------------------------------------------------------------------------------------------
 // statements
 
@@ -412,6 +437,10 @@ func (x *qtrans) stmts(list []ast.Stmt, en qenv, fc *qfctx, k qkont) string {
 		}, nil, en)
 		return done(en2)
 	case *ast.AssignStmt:
+		if x.droppedFieldReset(s, en) {
+			// `a.f = nil` for a field that is not part of the record (dropped type: the nesting machinery): not modelled
+			return next(en)
+		}
 		return x.assign(s, en, fc, next)
 	case *ast.ExprStmt:
 		c, ok := s.X.(*ast.CallExpr)
